@@ -27,6 +27,10 @@ Next ==
             /\ Check(e.m1 = 0 \/ e.m1 = e.v * 1000, l, "mean of equal values differs from that value (" \o e.mean \o ")")
             /\ Check(e.m2 = e.v * 1000, l, "mean is not sum over count after racing add/reset (" \o e.mean \o ")")
             /\ UNCHANGED acc
+       [] e.ev = "gauges" ->     \* from a pipeline run: while the workers are alive, and after Stop returned
+            /\ Check(e.pre = e.workers /\ e.arch = e.workers /\ e.post = e.workers, l,
+                     "worker gauges differ from the number of live workers (" \o e.phase \o ")")
+            /\ UNCHANGED acc
        [] OTHER -> UNCHANGED acc
   /\ l' = l + 1
 
